@@ -1,0 +1,11 @@
+//go:build !verif
+
+package proxy
+
+import "go.temporal.io/server/client/history"
+
+// verifPoint is a schedule point for the /verif harness; without the "verif" build tag it does nothing.
+func verifPoint(string) {}
+
+// verifTapBroadcast lets the /verif harness capture ownership announcements; without the tag it never does.
+func verifTapBroadcast(*shardManagerImpl, string, history.ClusterShardID) bool { return false }
